@@ -195,6 +195,9 @@ Path: {self.root_fingerprint.hex()}:{self.root_path}
     def parse(cls, key, s, network=None):
         hd_key = cls.raw_parse(BytesIO(key[1:]))
         hd_key.__class__ = cls
+        if network is None:
+            # without a network from the caller, the version bytes of the key decide
+            network = hd_key.network
         hd_key.add_raw_path_data(read_varstr(s), network=network)
         return hd_key
 
